@@ -171,6 +171,15 @@ def run(ctx, rep, model=True):
         run_spec(ctx, rep, spec, model)
         if len(rep.violations) >= 10:
             return
+    # byte offsets at and above 2**31 (binary files larger than 2 GiB; written as sparse holes)
+    for gap in (2 ** 31, 2 ** 32 + 5):
+        for _ in range(50):
+            spec = plotgen.random_spec(ctx.rng, ndims=3, nlev=2, nf=2, data="smallint", B=2, nblk=[2, 1, 1], layout="mono", single0=False)
+            if any(len(b) >= 2 for b in spec["levels"]):
+                break
+        spec["gap"] = gap
+        rep.count("offsets>=2^31")
+        run_spec(ctx, rep, spec, model)
 
 
 def replay(ctx, rep, obj, model=True):
